@@ -106,17 +106,19 @@ def perturb_corpus(ck, files, seed, per_file):
             if b["value"] == "}":
                 depth = max(0, depth - 1)
             if depth == 0 and a["end"] is not None and b["start"] is not None and b["start"] > a["end"]:
-                gaps.append((a["end"], b["start"]))
+                gaps.append((a["end"], b["start"], a["type"]))
         if not gaps:
             continue
         pb = project.project(base)
         for k in range(per_file):
             chosen = sorted(rng.sample(gaps, min(len(gaps), rng.choice([1, 3, 12, 40]))))
             out, last = [], 0
-            for (s, e) in chosen:
+            for (s, e, prevtype) in chosen:
                 out.append(text[last:s])
                 # insert at the start of the gap: the existing gap (with its own comments) follows
                 kind = rng.choice(kinds)
+                if prevtype in ("PATH", "REGEXP1", "REGEXP2") and kind in ("CCT", "CCMLT"):
+                    kind = "CC"      # "/*" glued to an unquoted path / regex is lexically part of it: not "between tokens"
                 out.append(surface.SEPS[kind])
                 last = s
             out.append(text[last:])
@@ -133,7 +135,7 @@ def perturb_corpus(ck, files, seed, per_file):
                 rec["accepted"] = False
                 rec["err"] = str(ex)[:100]
             records.append(rec)
-            meta[tid] = (fn, [(s, text[max(0, s - 20):s + 20]) for s, e in chosen][:5])
+            meta[tid] = (fn, [(s, text[max(0, s - 20):s + 20]) for s, e, _ in chosen][:5])
             ck.nontrivial(tid)
     return records, meta
 
